@@ -88,6 +88,26 @@ def craft_edits(r, n):
         if r.random() < 0.8 and len(body) >= 29:
             b[e0 + elen - 16:e0 + elen] = cmac(body, key, (1).to_bytes(16, "big"))      # entry MAC recomputed
         out.append((bytes(b), key))
+    # two entries with the SAME payload address and the shadowed payload absent from the file (entry MACs valid): "addresses are
+    # absolute and contiguous" is broken, nothing else
+    for n in (2, 3):
+        for dup, of in ((2, 1), (n, 1), (1, 2)):
+            key = L.gen_key(r)
+            pays = [bytes([j + 1] * (j + 2)) for j in range(n)]
+            dirlen = 4 + n * 46 + 1
+            adr, ents, kept = {}, [], b""
+            for j in range(1, n + 1):
+                if j == dup:
+                    continue
+                adr[j] = 5 + dirlen + len(kept)
+                kept += pays[j - 1]
+            adr[dup] = adr[of]
+            for j in range(1, n + 1):
+                src = pays[(of if j == dup else j) - 1]
+                body2 = adr[j].to_bytes(4, "big") + len(src).to_bytes(4, "big") + len(src).to_bytes(4, "big") + cmac(src, key) + b"\x00"
+                ents.append(bytes([len(body2) + 16]) + body2 + cmac(body2, key, j.to_bytes(16, "big")))
+            d = b"".join(ents) + b"\x00"
+            out.append((L.BF3_FILE_SIG + len(d).to_bytes(4, "big") + d + kept, key))
     return out
 
 
